@@ -22,8 +22,8 @@ RULE = ('W in {1 home entry, 1 home + 1 volume entry, 2 home entries} x M subset
         'non-UTF-8, no Path, no DeletionDate, bad date, the same two sharing the Path of a well-formed entry, info without payload, payload without info, directory named x.trashinfo, files named .trashinfo / ..trashinfo / ...trashinfo, a Path escape that is not UTF-8} x all permutations of info/ (<= 4!) x '
         'readers {list, list --files, list --size, restore date|path|none, rm exact, rm *, empty, empty 0, empty 7}; non-trivial = a malformed neighbour was read before a well-formed entry; '
         'distinct = (reader, neighbour kinds, outcome)')
-MK = ['nontrashinfo', 'empty', 'header', 'binary', 'nonutf8', 'nopath', 'nodate', 'baddate', 'nopayload', 'orphan', 'dirinfo', 'nodate-samepath', 'baddate-samepath', 'dangling-link-info', 'loop-link-info', 'tzdate', 'noname-empty', 'noname-valid', 'dotname-valid', 'dotdotname-valid', 'badescape', 'two-strays', 'short-stray', 'nul-path', 'empty-path', 'maxdate-nopath', 'long-orphan']
-READERS = ['list', 'list-files', 'list-size', 'restore-date', 'restore-path', 'restore-none', 'restore-cwd', 'rm-exact', 'rm-star', 'empty', 'empty0', 'empty7']
+MK = ['nontrashinfo', 'empty', 'header', 'binary', 'nonutf8', 'nopath', 'nodate', 'baddate', 'nopayload', 'orphan', 'dirinfo', 'nodate-samepath', 'baddate-samepath', 'dangling-link-info', 'loop-link-info', 'tzdate', 'noname-empty', 'noname-valid', 'dotname-valid', 'dotdotname-valid', 'badescape', 'two-strays', 'short-stray', 'nul-path', 'empty-path', 'maxdate-nopath', 'long-orphan', 'nonutf8-orphan']
+READERS = ['list', 'list-files', 'list-size', 'restore-date', 'restore-path', 'restore-none', 'restore-cwd', 'rm-exact', 'rm-star', 'empty', 'empty0', 'empty7', 'empty-v', 'empty-dry']
 WSETS = ['h1', 'h1+v1', 'h2']
 TD = scen.HOME_TRASH
 TDV = '/mnt/v1/.Trash-0'
@@ -36,7 +36,7 @@ def dimensions(tier):
 
 def n_info_entries(ws, ms):
     n = {'h1': 1, 'h1+v1': 1, 'h2': 2}[ws]
-    return n + sum((2 if m == 'two-strays' else 1) for m in ms if m not in ('orphan', 'long-orphan'))
+    return n + sum((2 if m == 'two-strays' else 1) for m in ms if m not in ('orphan', 'long-orphan', 'nonutf8-orphan'))
 
 
 def cases(tier):
@@ -103,6 +103,8 @@ def build(ws, ms):
             W.file(TD + '/info/old0.bak', 'a name shorter than the .trashinfo suffix\n')
         elif m == 'maxdate-nopath':
             scen.add_trashed(W, TD, 'a-maxdate', None, raw='[Trash Info]\nDeletionDate=9999-12-31T23:59:59\n', payload=None)
+        elif m == 'nonutf8-orphan':
+            W.file(TD + '/files/nu8-\udcff', 'a payload without info whose name is not valid UTF-8\n')
         elif m == 'long-orphan':
             W.file(TD + '/files/' + 'O' * 250, 'a payload without info whose name leaves no room for the suffix\n')
         elif m == 'nul-path':
@@ -172,11 +174,14 @@ def observe(ws, ms, reader, perm):
                 obs['state:' + nm] = st
         else:
             argv = {'rm-exact': ['trash-rm', ents[-1][2].rsplit('/', 1)[1]], 'rm-star': ['trash-rm', '*'], 'empty': ['trash-empty'],
-                    'empty0': ['trash-empty', '0'], 'empty7': ['trash-empty', '7']}[reader]
+                    'empty0': ['trash-empty', '0'], 'empty7': ['trash-empty', '7'], 'empty-v': ['trash-empty', '-v'],
+                    'empty-dry': ['trash-empty', '--dry-run']}[reader]
             r = sb.run(argv, plan=plan, cwd='/', now=NOW)
             after = sb.snapshot()
             for td, nm, loc, d in ents:
                 obs['state:' + nm] = scen.entry_state(before, after, td, nm)
+                if reader == 'empty-dry':
+                    obs['announced:' + nm] = ('would remove %s/files/%s\n' % (td, nm)) in r.out and ('would remove %s/info/%s.trashinfo\n' % (td, nm)) in r.out
             if reader.startswith('rm'):
                 # an info without a Path has no original name: no pattern can match it (C20: rm matches what list prints)
                 for m in ms:
